@@ -234,6 +234,8 @@ pub struct Obs {
     /// input offsets one past each exchange (handshake first) and last-packet ids
     pub ends: Vec<(usize, u8)>,
     pub kinds: Vec<Kind>,
+    /// the handshake carried CLIENT_SSL and the shim offers TLS: output after the greeting is TLS
+    pub tls_upgrade_requested: bool,
 }
 impl Obs {
     /// everything the server handed to the transport (flushed or not)
@@ -309,7 +311,10 @@ pub fn run_case(case: &Case) -> Obs {
         Err(rc) => std::mem::replace(&mut *rc.borrow_mut(), World::new(vec![])),
     };
     let log = std::mem::take(&mut *log.borrow_mut());
-    Obs { outcome, world, log, ends, kinds }
+    let hs = &case.handshake;
+    let ssl_bit = hs.len() >= 2 && (u16::from_le_bytes([hs[0], hs[1]]) as u32 & wire::CLIENT_PROTOCOL_41 != 0) && (u16::from_le_bytes([hs[0], hs[1]]) as u32 & wire::CLIENT_SSL != 0);
+    let tls_upgrade_requested = case.tls.is_some() && case.raw_input.is_none() && ssl_bit;
+    Obs { outcome, world, log, ends, kinds, tls_upgrade_requested }
 }
 
 // ------------------------------------------------------------------------------------------------
@@ -435,9 +440,14 @@ where
                         v.case_group = group.to_string();
                         v.case_index = i;
                     }
-                    // bound memory: keep at most 50 violations per worker
-                    if rep.violations.len() > 50 {
-                        rep.violations.truncate(50);
+                    // bound memory: keep at most 3 witnesses per signature per worker
+                    if rep.violations.len() > before {
+                        let mut per: std::collections::BTreeMap<String, usize> = std::collections::BTreeMap::new();
+                        rep.violations.retain(|v| {
+                            let c = per.entry(v.signature.clone()).or_insert(0);
+                            *c += 1;
+                            *c <= 3
+                        });
                     }
                 }
                 rep
@@ -480,7 +490,23 @@ pub fn panic_signature(file: &str, line: u32, msg: &str) -> String {
 pub fn msg_class(msg: &str) -> String {
     let mut out = String::new();
     let mut last_hash = false;
-    for c in msg.chars().take(200) {
+    // hexadecimal literals count as numbers
+    let mut norm = String::new();
+    let b: Vec<char> = msg.chars().take(200).collect();
+    let mut k = 0;
+    while k < b.len() {
+        if b[k] == '0' && k + 1 < b.len() && b[k + 1] == 'x' {
+            norm.push('0');
+            k += 2;
+            while k < b.len() && b[k].is_ascii_hexdigit() {
+                k += 1;
+            }
+        } else {
+            norm.push(b[k]);
+            k += 1;
+        }
+    }
+    for c in norm.chars() {
         if c.is_ascii_digit() {
             if !last_hash {
                 out.push('#');
